@@ -25,7 +25,7 @@ RULES = {
     "C08": "well-formed processor (capabilities may dead-end); non-trivial = a stall error, or a run of at least 3 cycles; distinct = sha1",
 }
 CAPS = ["ALU", "MEM", "BR"]
-FAMILIES = ["parts", "parts", "parts", "loader", "small", "deadend", "wide", "illformed"]
+FAMILIES = ["parts", "parts", "widechain", "loader", "small", "deadend", "wide", "illformed", "parts", "widechain"]
 TIMEOUT = 20.0
 
 
@@ -34,6 +34,17 @@ TIMEOUT = 20.0
 
 def gen_units(rng, family):
     """layered DAG; returns (units: dict id->dict, edges:set, caps:list)"""
+    if family == "widechain":
+        # a linear chain of wide units: instructions overtake data-stalled older ones, so units hold instructions out of
+        # program order and several leave for the same successor in one cycle
+        n = rng.randint(2, 4)
+        ra = rng.randint(0, n - 2)
+        wb = rng.randint(ra, n - 1)
+        units = {}
+        for u in range(n):
+            units[u] = dict(name="%s%d" % ("cmxq"[u], rng.randint(0, 9)), width=rng.randint(2, 4), caps=["ALU"],
+                            rl=(u == ra), wl=(u == wb), acl=(["ALU"] if rng.random() < 0.1 else []))
+        return units, {(u, u + 1) for u in range(n - 1)}, ["ALU"]
     if family == "small":
         nlayers = rng.randint(1, 2)
         widths = (1, 2)
@@ -162,8 +173,18 @@ def build_from_loader(rng, units, edges):
         return None
 
 
-def gen_prog(rng, incaps, thorough):
+def gen_prog(rng, incaps, thorough, dense=False):
     from program_defs import HwInstruction
+
+    if dense:
+        # few registers, many source-less writers: older readers wait while younger writers run ahead
+        n = rng.randint(4, 12)
+        regs = ["R%d" % i for i in range(rng.randint(2, 3))]
+        prog = []
+        for _ in range(n):
+            srcs = [rng.choice(regs)] if rng.random() < 0.45 else []
+            prog.append(HwInstruction(srcs, rng.choice(regs), incaps[0] if incaps else "ALU"))
+        return prog
 
     hi = 40 if thorough and rng.random() < 0.1 else 12
     n = rng.choice([0, 1, 2, 3]) if rng.random() < 0.15 else rng.randint(0, hi)
@@ -299,7 +320,7 @@ def evaluate(inp: dict) -> dict:
 
 
 def cases(tier: str) -> list:
-    n = 6000 if tier == "quick" else 120000
+    n = 10000 if tier == "quick" else 150000
     return list(range(n))
 
 
@@ -323,7 +344,7 @@ def gen_input(case, tier="quick"):
         units, edges, caps = gen_units(rng, "small")
         proc = build_from_parts(rng, units, set())
     incaps = sorted({c for m in list(proc.in_ports) + list(proc.in_out_ports) for c in m.capabilities})
-    prog = gen_prog(rng, incaps, tier == "thorough")
+    prog = gen_prog(rng, incaps, tier == "thorough", dense=(family == "widechain" and rng.random() < 0.8))
     return family, {"proc": proc_json(proc), "prog": prog_json(prog)}
 
 
